@@ -603,6 +603,10 @@ pub fn primer_main(mode: &str) -> i32 {
 }
 
 fn primer_outputs() -> Option<Vec<(&'static str, String)>> {
+    if cfg!(miri) {
+        // the interpreter cannot start processes; the probe runs in the native tiers
+        return None;
+    }
     let exe = std::env::current_exe().ok()?;
     let mut outs = vec![];
     for m in PRIMERS {
